@@ -19,8 +19,12 @@ Streams
              exactly the keys of get_changed_files() / the pairs of get_renames(); after apply() every
              `+++` name is a file that holds get_new_code() and every renamed-away `---` name is gone),
              layout (which of inside/outside the project x changed/moved/changed+moved a case covers),
-             inspect (nothing on disk changes before
-             apply), apply (disk afterwards = announced contents and names, nothing else),
+             inspect (nothing on disk changes before apply; every inspect method - Refactoring.get_renames /
+             get_changed_files / get_diff, ChangedFile.get_new_code / get_diff - answers, judged one by one),
+             inspect-methods (which part of the domain each answer covers: Script with / without a path x
+             result with / without file renames x buffer alone / + files on disk),
+             apply (disk afterwards = announced contents and names, nothing else; a result that changes a
+             buffer without a path cannot come true: apply() refuses with RefactoringError and writes nothing),
              bytes (text outside the rewritten nodes preserved, by absolute offsets; the text in front of
              each rewritten node - its parso prefix: line break, comment / blank lines, indentation - must
              survive inside the replacement, only whole new lines may be inserted into it),
@@ -46,12 +50,20 @@ MANIFEST = dict(
          'group and then old = new; get_diff normalisation appends at most one newline; inspection requests '
          'leave the FS model unchanged, apply (phase order and newline= taken from the source by the '
          'translator) leaves exactly get_new_code() at every changed path and nothing else, then renames; '
-         'apply on a path-less Script refuses with RefactoringError; the until-position prologue raises no '
+         'apply on a path-less Script refuses with RefactoringError (for both phase orders the translator knows; '
+         'with the refusal in front nothing is written - apply_refusal_writes_nothing_partial - and the order of '
+         'the source as it is writes the files in front of the path-less entry first: '
+         'apply_refusal_half_applied_witness = known finding C07-pathless-apply-half-applied); calculate_to_path, '
+         'read statement by statement (None guard, fold / first-match loop), keeps the key None of a Script without '
+         'a path for ANY list of file renames (to_path_none_stays_none, to_path_total) and the section of such a '
+         'buffer shows the empty name in both headers (pathless_section_names_nothing); the until-position prologue raises no '
          'IndexError under a stated range hypothesis (kernel-checked counter-witness for the unrestricted '
          'statement = F3) and none at all once the range check exists. Tie: translator constants + '
          'correspondence on real refactorings (rename, inline, extract_variable, extract_function) over '
          'generated projects with LF/CRLF/CR endings, with/without final newline, unicode identifiers, '
-         'module renames; worlds on disk whose files lie inside the Project path, below it, outside of it (sibling '
+         'module renames; Scripts without a path (unsaved buffers: fresh texts and unsaved copies of files on disk) '
+         'whose renames of modules / packages / namespace packages carry file renames, alone or together with changed '
+         'files on disk; worlds on disk whose files lie inside the Project path, below it, outside of it (sibling '
          'directories on sys_path / added_sys_path, one with the project name as a string prefix) with modules, '
          'packages, nested packages and namespace packages over two roots that are changed only, moved only, '
          'changed AND moved (modules that refer to themselves / their own package); the `---`/`+++` header '
@@ -1118,9 +1130,10 @@ def compare(ctx, reqs, pending, answers):
                 ctx.tie_broken('correspondence:render',
                                short({'case': case, 'model': ans['render'], 'impl': it['new']}, 1500))
         elif kind == 'diff':
-            outside = req['from'][:len(req['project'])] != req['project']
+            outside = req['from'] is not None and req['from'][:len(req['project'])] != req['project']
             ctx.count('diff', key, nontrivial=it['old'] != it['new'],
-                      bucket=eol_kind(it['old']) + ('/outside-project' if outside else ''))
+                      bucket=eol_kind(it['old']) + ('/outside-project' if outside else '')
+                      + ('/pathless' + ('+renames' if req['renames'] else '') if req['from'] is None else ''))
             want_b = norm_lines(it['new'])
             ok = ans.get('valid') is True and ans.get('text') == it['diff'] and ans.get('applied') == want_b
             if not ok:
